@@ -56,6 +56,8 @@ class Engine(ExprMixin, CallMixin, StmtMixin):
             return VE(fresh(name, E))
         if ty == 'none':
             return VNone
+        if ty == 'any':
+            return Val('opaque', None, what=name)
         if ty.startswith('seq['):
             el = ty[4:-1]
             return VSeq(fresh(name, seqsort(el)), el)
@@ -145,12 +147,15 @@ class Engine(ExprMixin, CallMixin, StmtMixin):
             else:
                 st.assume(it)
 
-    def goal_of(self, items):
-        """clause items -> one z3 goal (quantified parts skolemised)"""
+    def goal_of(self, items, st=None):
+        """clause items -> one z3 goal (quantified parts skolemised; the state's quantified assumptions are
+        instantiated at the skolem constant)"""
         gs = []
         for it in items:
             if isinstance(it, QBool):
                 k = fresh('sk', IntSort())
+                if st is not None:
+                    self.touch(st, k)
                 gs.append(it.instance(k))
             else:
                 gs.append(it)
@@ -295,6 +300,8 @@ class Engine(ExprMixin, CallMixin, StmtMixin):
             self.assume_clause(st, self.spec.clause(cl.text, ctx))
         for h in c.init_hooks:
             h(self, st, names)
+        for h in self.reg.entry_hooks:
+            h(self, st, names)
         # vacuity guard: the precondition must be satisfiable
         self.obls.append(Obl('%s#requires-satisfiable' % c.key, st.hyps(), BoolVal(False), 'V', (),
                              meta={'expect': 'sat'}, func=c.key))
@@ -319,8 +326,14 @@ class Engine(ExprMixin, CallMixin, StmtMixin):
             else:
                 raise Unsupported('%s outside loop' % kind)
         self.stats['paths'] += len(outs)
-        self.obls.append(Obl('%s#normal-exit-reachable' % c.key, [], BoolVal(reached > 0), 'V', (),
-                             meta={'paths': len(outs), 'trivial': True}, func=c.key))
+        # vacuity guard: some normal (or declared exceptional) exit must be reachable under the hypotheses
+        exits = [o for o in outs if o[0] in ('fall', 'return')] or [o for o in outs if o[0] == 'raise']
+        for n, o in enumerate(exits[:3]):
+            self.obls.append(Obl('%s#exit-reachable[%d]' % (c.key, n), o[1].hyps(), BoolVal(False), 'V', (),
+                                 meta={'expect': 'sat', 'group': c.key + '#exit-reachable'}, func=c.key))
+        if not exits:
+            self.obls.append(Obl('%s#exit-reachable[none]' % c.key, [], BoolVal(False), 'V', (),
+                                 meta={'expect': 'sat', 'group': c.key + '#exit-reachable'}, func=c.key))
 
     def _measure(self, c, ctx):
         if not c.measure:
@@ -340,7 +353,7 @@ class Engine(ExprMixin, CallMixin, StmtMixin):
             return
         for cl in c.ensures:
             items = self.spec.clause(cl.text, ctx)
-            self.oblige('%s#%s' % (c.key, cl.label), st, self.goal_of(items), cl.kind, cl.props)
+            self.oblige('%s#%s' % (c.key, cl.label), st, self.goal_of(items, st), cl.kind, cl.props)
         # a normal return while an exact `raises` condition holds contradicts the contract
         for exc, r in c.raises.items():
             if r.exact:
@@ -367,7 +380,7 @@ class Engine(ExprMixin, CallMixin, StmtMixin):
             self.oblige('%s#raises[%s]-only-when' % (c.key, exc), st, self.goal_of(w), r.kind, r.props)
         for cl in r.ensures:
             items = self.spec.clause(cl.text, ctx)
-            self.oblige('%s#raises[%s].%s' % (c.key, exc, cl.label), st, self.goal_of(items), cl.kind, cl.props)
+            self.oblige('%s#raises[%s].%s' % (c.key, exc, cl.label), st, self.goal_of(items, st), cl.kind, cl.props)
         self._check_frame(c, st, names)
 
     def _check_frame(self, c, st, names):
@@ -448,7 +461,9 @@ class Engine(ExprMixin, CallMixin, StmtMixin):
         if isinstance(node, ast.Attribute) and isinstance(node.value, ast.Name):
             base = self.lookup_global(node.value.id, fi.module)
             if base is not None and base.ty == 'cls':
-                return Val('func', None, qual=base.a['name'] + '.' + node.attr)
+                q = base.a['name'] + '.' + node.attr
+                cm = q in self.repo.funcs and 'classmethod' in self.repo.funcs[q].decorators
+                return Val('func', None, qual=q, boundcls=base if cm else None)
         if isinstance(node, ast.Lambda):
             return Val('func', None, lam=node, env={}, module=fi.module)
         raise Unsupported('default value ' + ast.dump(node))
@@ -463,7 +478,7 @@ class Engine(ExprMixin, CallMixin, StmtMixin):
             h(self, st, binding)
         for cl in c.requires:
             items = self.spec.clause(cl.text, pre_ctx)
-            self.oblige('%s.call(%s).pre.%s' % (site, c.key, cl.label), st, self.goal_of(items), 'A',
+            self.oblige('%s.call(%s).pre.%s' % (site, c.key, cl.label), st, self.goal_of(items, st), 'A',
                         meta={'callee': c.key})
             self.assume_clause(st, items)
         # termination of recursion: lexicographic (measure, rank)
